@@ -12,7 +12,7 @@ while IFS='|' read -r nn title b1 b2 b3; do
   [ -z "$f" ] && { echo "NOFILE $nn"; continue; }
   if ! patch -p1 -s --no-backup-if-mismatch < "$f"; then echo "PATCHFAIL $nn"; git checkout -- . ; continue; fi
   if ! go build ./... 2>/tmp/ap.err; then echo "BUILDFAIL $nn"; head -5 /tmp/ap.err; git checkout -- .; continue; fi
-  if go test -count=1 $pkgs 2>&1 | grep -E "^(FAIL|--- FAIL|panic)" | grep -v "html/layout\|html/document\|webrender/text\s" > /tmp/ap.fail; [ -s /tmp/ap.fail ]; then echo "TESTFAIL $nn"; head -5 /tmp/ap.fail; git checkout -- .; git clean -fdq; continue; fi
+  if go test -count=1 $pkgs 2>&1 | grep -E "^(FAIL\s+\S|--- FAIL|panic)" | grep -v "html/layout\|html/document\|webrender/text\s\|panic: loading font set" > /tmp/ap.fail; [ -s /tmp/ap.fail ]; then echo "TESTFAIL $nn"; head -5 /tmp/ap.fail; git checkout -- .; git clean -fdq; continue; fi
   if [ -n "${LAYOUTTESTS:-}" ]; then
     /verif/tools/layouttests.sh > /tmp/ap.lt 2>/dev/null
     if ! diff -q /verif/tools/layouttests-baseline.txt /tmp/ap.lt >/dev/null; then echo "LAYOUTTESTS DIFFER $nn"; diff /verif/tools/layouttests-baseline.txt /tmp/ap.lt | head -6; git checkout -- .; git clean -fdq; continue; fi
